@@ -1,7 +1,7 @@
 \* C07 thorough: <= 3 rich attributes; dropped sorts tried on <= 2 rich attributes
 CONSTANTS MaxRich = 3
  Contexts = {1, 2, 3, 4}
- Drops = {"none", "declared_deps", "build_deps", "source_groups", "tool_groups", "output_names", "outputs", "provides", "entry_points", "env", "cmds"}
+ Drops = {"none", "declared_deps", "source_groups", "tool_groups", "output_names", "outputs", "provides", "entry_points", "env", "cmds"}
  DropRich = 2
  EnvRefs = TRUE
  Emit = TRUE
